@@ -84,7 +84,7 @@ int write_uf2(Memory *memory, FILE *out)
   //bool need_magic_3;
 
   // Add code.
-  for (uint32_t i = memory->low_address; i <= memory->high_address; i++)
+  for (uint64_t i = memory->low_address; i <= memory->high_address; i++)
   {
     if (ptr == 0)
     {
